@@ -498,6 +498,13 @@ def base_workloads():
                          [('f0.yaml', True), ('g0.yaml', False)], [('f1.yaml', False), ('g1.yaml', True)]),
         'three': W({'f0.yaml': 'a: 0\nl: [1]\n', 'f1.yaml': 'b: !include i1.yaml\n', 'i1.yaml': 'c: 1\n', 'bad2.yaml': 'a: !nosuchtag 1\n'},
                    [('f0.yaml', True)], [('f1.yaml', False)], [('bad2.yaml', True)]),
+        # the SAME metadata block text in the files of different threads, also on include nodes (whose file decides where the included
+        # name is looked up): anything keyed by the text of a block must not carry a file across builds (seeded change S8-C20)
+        'same_blocks': W({'f0.yaml': "a: !metadata{{'note': 1}} {x: 0}\nb: !force{{'k': 2}} [1]\n", 'f1.yaml': "c: !metadata{{'note': 1}} {y: 1}\nd: !force{{'k': 2}} 5\n",
+                          'f2.yaml': "e: !metadata{{'note': 1}} 7\n"},
+                         [('f0.yaml', True)], [('f1.yaml', False)], [('f2.yaml', True)]),
+        'same_block_includes': W({'m0.yaml': "x: !include{{'note': 1}} i0.yaml\n", 'i0.yaml': 'p: 0\n', 'm1.yaml': "y: !include{{'note': 1}} i1.yaml\nz: 1\n", 'i1.yaml': 'q: 1\n'},
+                                 [('m0.yaml', True)], [('m1.yaml', False)]),
         'both_fail': W({'bad0.yaml': 'm: !include nothere0.yaml\n', 'bad1.yaml': 'x: 1\n---\n!notnew {n: 2}\n'},
                        [('bad0.yaml', True)], [('bad1.yaml', False)]),
     }
@@ -701,6 +708,23 @@ class C20(Prop):
         return dict(r, err=None if r['err'] is None else {k: v for k, v in r['err'].items() if k != 'tb'})
 
     def oracle(self, case, io, ans):
+        # "every node records the file it really came from": a file of the job's own sources, or one included by them - never a file that
+        # only another thread's job reads (checked on the concurrent run and on both sequential references)
+        own = []
+        for spec in case['threads']:
+            names, todo = set(), [nm[4:] if nm.startswith('raw:') else nm for nm, _ in spec['sources']]
+            while todo:
+                nm = todo.pop()
+                if nm in names: continue
+                names.add(nm)
+                todo += re.findall(r'([A-Za-z0-9_]+\.yaml)', case['files'].get(nm, ''))
+            own.append(names)
+        for what, runs in (('concurrent build', io['threads']), ('sequential build in fresh threads', io['seq']), ('sequential build in the main thread', io.get('seq_main') or [])):
+            for t, r in enumerate(runs):
+                for nd in (r.get('nodes') or []):
+                    f = nd[2]
+                    if isinstance(f, str) and f.startswith('$D/') and f[3:] not in own[t] and all(f[3:] in o for o in [set().union(*own)]):
+                        return f'thread {t} ({what}): the node at {nd[0]!r} records the file {f!r}, which only another job reads'
         for t, (got, want) in enumerate(zip(io['threads'], io.get('seq_main') or [])):
             if self._no_tb(got) != self._no_tb(want):
                 if (got['err'] is None) != (want['err'] is None):
